@@ -119,11 +119,20 @@ StepOK(e, s, t) ==
                       /\ t = TransferPost(s, e.args.owner, e.args.newOwner, amt)
            [] e.ev = "set_enabled" ->
                  t = [s EXCEPT !.enabled = e.args.enabled]
+           \* the module's genesis is exported and imported into an emptied store, with or without the (optional)
+           \* declared total: the ledger is the same afterwards
+           [] e.ev = "reimport" -> t = s
+           \* a hand-crafted transfer whose amount names one denomination several times: if it is accepted at
+           \* all, it moves the sum
+           [] e.ev = "transfer_dup" ->
+                 LET amt == [d \in DenomsOf(s) |-> IF d = e.args.denom THEN BigMul(e.args.amt, BigOfInt(e.args.times)) ELSE "0"] IN
+                 /\ Covered(s, e.args.owner, amt)
+                 /\ t = TransferPost(s, e.args.owner, e.args.newOwner, amt)
            [] OTHER -> FALSE
 
 \* the class of a step, used to identify a violation
 StepClass(e) ==
-    IF e.ev \in {"transfer_all", "transfer_amount", "transfer_ratio"}
+    IF e.ev \in {"transfer_all", "transfer_amount", "transfer_ratio", "transfer_dup"}
     THEN (IF e.args.owner = e.args.newOwner THEN "owner=newOwner" ELSE "owner#newOwner")
     ELSE "-"
 
@@ -186,9 +195,12 @@ MResult(s, ev, args) ==
            IN [ok |-> ok, post |-> IF ok THEN MTransfer(s, o, n, amt) ELSE s, moved |-> amt]
       [] ev = "set_enabled" ->
            [ok |-> TRUE, post |-> [s EXCEPT !.enabled = args.enabled], moved |-> NoCoins(s)]
+      [] ev = "reimport" -> [ok |-> TRUE, post |-> s, moved |-> NoCoins(s)]
+      \* duplicate denominations make the coin set invalid: ValidateBasic refuses
+      [] ev = "transfer_dup" -> [ok |-> FALSE, post |-> s, moved |-> NoCoins(s)]
 
 IsSelfTransfer(ev, args) ==
-    ev \in {"transfer_all", "transfer_amount", "transfer_ratio"} /\ args.owner = args.newOwner
+    ev \in {"transfer_all", "transfer_amount", "transfer_ratio", "transfer_dup"} /\ args.owner = args.newOwner
 
 Do(ev, args) ==
     LET r == MResult(st, ev, args) IN
@@ -204,6 +216,8 @@ TransferAll(o, n)         == Do("transfer_all", [owner |-> o, newOwner |-> n])
 TransferAmount(o, n, amt) == AnyNonZero(amt) /\ Do("transfer_amount", [owner |-> o, newOwner |-> n, coins |-> amt])
 TransferRatio(o, n, r)    == Do("transfer_ratio", [owner |-> o, newOwner |-> n, ratio |-> r])
 SetEnabled(b)             == Do("set_enabled", [enabled |-> b])
+Reimport(b)               == Do("reimport", [declared |-> b])
+TransferDup(o, n, d, x)   == Do("transfer_dup", [owner |-> o, newOwner |-> n, denom |-> d, amt |-> x, times |-> 2])
 
 Next ==
     /\ Len(hist) < MaxLen
@@ -212,6 +226,8 @@ Next ==
        \/ \E o \in Accts, n \in Accts, c \in CoinChoices : TransferAmount(o, n, c)
        \/ \E o \in Accts, n \in Accts, r \in Ratios : TransferRatio(o, n, r)
        \/ \E b \in BOOLEAN : b # st.enabled /\ SetEnabled(b)
+       \/ \E b \in BOOLEAN : Reimport(b)
+       \/ \E o \in Accts, n \in Accts, d \in Denoms, x \in Amts \ {"0"} : TransferDup(o, n, d, x)
 
 Spec == Init /\ [][Next]_vars
 
@@ -256,6 +272,8 @@ SimNext ==
        \/ LET o == RandOwner(hist) IN TransferAmount(o, RandOther(o), [d \in AllDenoms |-> IF RandomElement(1..2) = 1 THEN st.share[o][d] ELSE "0"])
        \/ LET o == RandOwner(hist) IN TransferRatio(o, RandOther(o), RandomElement(Ratios))
        \/ ((IF st.enabled THEN RandomElement(1..6) = 1 ELSE TRUE) /\ SetEnabled(~st.enabled))
+       \/ (RandomElement(1..3) = 1 /\ Reimport(RandomElement(BOOLEAN)))
+       \/ (RandomElement(1..3) = 1 /\ LET o == RandOwner(hist) IN TransferDup(o, RandOther(o), RandomElement(Denoms), RandomElement(Amts \ {"0"})))
 SimSpec == Init /\ [][SimNext \/ Emit]_vars
 
 View == <<st, leaked, Len(hist)>>
